@@ -22,7 +22,8 @@ META = {
             "PruneExact, CountsOk, ContentOk, ResMonotone (resources in effect by the ISO nearest-ancestor rule), MaxIdOk "
             "and the post-state the abstract model prescribes. The impl-shaped layer transcribes lopdf's algorithms with "
             "switches for the confirmed deviations; TLC explores every call sequence up to the depth bound from every "
-            "starting document both as the code is (the only violations are the listed findings) and as repaired (none). "
+            "starting document both as the code is (no violation since the five fix: commits) and with the repaired defects "
+            "seeded back (the only violations are the five former findings). "
             "Sampled behaviours (breadth-first and random simulation to depth 10) are stepped through the real lopdf API "
             "and seeded random programs of 5-40 calls on generated documents and on documents loaded from bytes saved by "
             "lopdf are recorded; Trace_Editing binds every logged call to its action, checks effect and invariants on the "
@@ -44,8 +45,10 @@ META = {
 OPS = ["NewObjectId", "AddObject", "Replace", "DeleteObject", "RemoveAnnot", "Prune", "DeletePages", "Renumber",
        "Compress", "Decompress", "AddPageContents", "ChangePageContent", "ChangeContentStream",
        "GetOrCreateResources", "AddXObject", "AddGraphicsState", "BuildOutline", "Save", "SaveLoad"]
-# violation tags the model produces "as the code is" (the Allowed constant of the cfgs)
-MODEL_FINDINGS = ["delete.array.dup", "delete.streamdict", "delete.trailer", "resources.shadow", "contents.refToArray"]
+# violation tags the model produces "as the code is" (the Allowed constant of the cfgs): none since the five fix: commits
+MODEL_FINDINGS = []
+# ... and with the repaired defects seeded back (Editing!DevSeeded / FormerFindings): the negative control of the Judge
+FORMER_FINDINGS = ["delete.array.dup", "delete.streamdict", "delete.trailer", "resources.shadow", "contents.refToArray"]
 DRIFT = ("drift.",)
 
 
@@ -63,8 +66,9 @@ def model_runs(tier):
 
 
 def run_models(chk, tier):
-    """every cfg explores both `as the code is` and `as repaired`; the invariant Refines fails (ToolError) if the design
-    violates a clause outside the listed findings, or any clause at all as repaired"""
+    """every cfg explores both `as the code is` and `with the repaired defects seeded back`; the invariant Refines fails
+    (ToolError) if the design as the code is violates a clause outside the listed findings (there are none), or the
+    seeded design one outside the five former findings"""
     runs = model_runs(tier)
 
     def one(x):
@@ -100,8 +104,9 @@ def run_models(chk, tier):
 
 
 def model_vacuity(cases):
-    """(B) every action was taken, both variants were explored, every listed finding is reached as the code is and
-    nothing is violated as repaired (computed from the printed behaviours; -coverage is unusably slow here)"""
+    """(B) every action was taken, both variants were explored, exactly the listed findings (none) are reached as the
+    code is and exactly the five former findings with the repaired defects seeded back (computed from the printed
+    behaviours; -coverage is unusably slow here)"""
     ops, asis_tags, rep_tags = set(), set(), set()
     for c in cases:
         for st in c["calls"]:
@@ -112,12 +117,12 @@ def model_vacuity(cases):
     missing = [o for o in OPS if o not in ops]
     if missing:
         raise vlib.ToolError("vacuous model run: actions never taken in a printed behaviour: %s" % missing)
-    if rep_tags:
-        raise vlib.ToolError("as-repaired model violates %s" % sorted(rep_tags))
+    if rep_tags != set(FORMER_FINDINGS):
+        raise vlib.ToolError("model with the repaired defects seeded back reaches %s, expected exactly %s" % (sorted(rep_tags), FORMER_FINDINGS))
     if asis_tags != set(MODEL_FINDINGS):
         raise vlib.ToolError("as-the-code-is model reaches %s, expected exactly %s" % (sorted(asis_tags), MODEL_FINDINGS))
-    if not any(not c["asis"] for c in cases):
-        raise vlib.ToolError("vacuous: no as-repaired behaviour printed")
+    if not any(not c["asis"] for c in cases) or not any(c["asis"] for c in cases):
+        raise vlib.ToolError("vacuous: no as-the-code-is / no seeded behaviour printed")
 
 
 def norm(x):
@@ -425,7 +430,7 @@ def run(tier):
     w = workdir("c11")
     rnd = random.Random(vlib.seed())
     vlib.build_harness("c11")
-    # (M) the design, as the code is and as repaired
+    # (M) the design, as the code is and with the repaired defects seeded back
     cases, sim = run_models(chk, tier)
     model_vacuity(cases + sim)
     chk.exhaustive = False
